@@ -53,6 +53,10 @@ pub struct CircuitChallenger<const WIDTH: usize, const RATE: usize, C: Challenge
     /// capacity `None` (zeros enforced by the compact D=1 AIR). Later permutations use
     /// `new_start=false` with the same capacity pattern and chaining.
     duplexed_once: bool,
+
+    /// Verification hook: identity of this instance in recorded traces (assigned at its first event).
+    #[cfg(p3r_verif)]
+    verif_id: core::cell::Cell<u64>,
 }
 
 impl<const WIDTH: usize, const RATE: usize, C: ChallengerPermConfig>
@@ -72,6 +76,8 @@ impl<const WIDTH: usize, const RATE: usize, C: ChallengerPermConfig>
             output_buffer: Vec::new(),
             initialized: false,
             duplexed_once: false,
+            #[cfg(p3r_verif)]
+            verif_id: core::cell::Cell::new(0),
         }
     }
 
@@ -346,6 +352,8 @@ where
         if self.input_buffer.len() == RATE {
             self.duplexing::<BF, EF>(circuit);
         }
+        #[cfg(p3r_verif)]
+        self.verif_event("observe");
     }
 
     fn sample(&mut self, circuit: &mut CircuitBuilder<EF>) -> Target {
@@ -358,9 +366,13 @@ where
             self.duplexing::<BF, EF>(circuit);
         }
 
-        self.output_buffer
+        let sampled = self
+            .output_buffer
             .pop()
-            .expect("Output buffer should be non-empty after duplexing")
+            .expect("Output buffer should be non-empty after duplexing");
+        #[cfg(p3r_verif)]
+        self.verif_event("sample");
+        sampled
     }
 
     fn observe_ext(&mut self, circuit: &mut CircuitBuilder<EF>, value: Target) {
@@ -436,5 +448,29 @@ where
         self.output_buffer.clear();
         self.initialized = true;
         self.duplexed_once = false;
+        #[cfg(p3r_verif)]
+        self.verif_event("clear");
+    }
+}
+
+#[cfg(p3r_verif)]
+impl<const WIDTH: usize, const RATE: usize, C: ChallengerPermConfig>
+    CircuitChallenger<WIDTH, RATE, C>
+{
+    /// Verification hook: one event per transcript action, after the state change.
+    fn verif_event(&self, name: &str) {
+        if p3_circuit::verif_trace::enabled() {
+            if self.verif_id.get() == 0 {
+                self.verif_id.set(p3_circuit::verif_trace::fresh_id());
+            }
+            p3_circuit::verif_trace::emit(&alloc::format!(
+                "\"ev\":\"{name}\",\"id\":{},\"width\":{WIDTH},\"rate\":{RATE},\"in\":{},\"out\":{},\"init\":{},\"once\":{}",
+                self.verif_id.get(),
+                self.input_buffer.len(),
+                self.output_buffer.len(),
+                self.initialized,
+                self.duplexed_once
+            ));
+        }
     }
 }
